@@ -1179,8 +1179,16 @@ class Engine:
         if n == 'feof': return int(F[args[0]]['eof'])
         if n in ('ferror', 'clearerr'): return 0
         if n == 'fread':
-            ptr, size, nm, f = s.concretize(args[0], 64), s.concretize(args[1], 64), s.concretize(args[2], 64), F[args[3]]
-            data = V.get(f['path'], []); want = size * nm; have = max(0, len(data) - f['pos'])
+            ptr, f = s.concretize(args[0], 64), F[s.concretize(args[3], 64)]
+            data = V.get(f['path'], []); have = max(0, len(data) - f['pos'])
+            size, nm = args[1], args[2]
+            if is_sym(size) and not is_sym(nm) and nm == 1:
+                # one item of symbolic size: either it does not fit into what is left (short read, the exact size is irrelevant) or the size is one of few values
+                if s.branch(z3.UGT(size, have)):
+                    if have: s.check(ptr, have, 'fread store')
+                    for i in range(have): s.store(ptr + i, 1, data[f['pos'] + i])
+                    f['pos'] += have; f['eof'] = True; return 0
+            size, nm = s.concretize(size, 64), s.concretize(nm, 64); want = size * nm
             items = min(want, have) // size if size else 0
             got = min(want, have)
             if got: s.check(ptr, got, 'fread store')
